@@ -26,7 +26,7 @@ def run(ctx):
     return lattice_check(
         ctx, gen="material/CriteriaGen", judge="material/CriteriaJudge", harness="criteria.cxx",
         libs=["TFELMaterial", "TFELMath", "TFELException"], build=("TFELMaterial",),
-        rule="12 criteria x 53 parameter sets (isotropic limits of the orthotropic criteria, admissible extremes of c, exponents "
+        rule="12 criteria x 55 parameter sets (Mohr-Coulomb transition angles 10, 15, 25, 29 degrees, isotropic limits of the orthotropic criteria, admissible extremes of c, exponents "
              "1, 2, 5/2, 3, 4, 6, 8, 100, porosities below / above the coalescence threshold) x every diagonal stress over -2..2 in 1D, "
              "diagonal over {-1,0,2} (quick) / -2..2 (thorough) x in-plane shear in 2D, diagonal over {-1,0,2} x 5 (quick) / 8 (thorough) shear "
              "patterns in 3D, probe stresses at binary scales 2^30, 2^-20 (thorough: also 2^+-10), and nearly coincident principal stresses (gaps 2^-20, 2^-45; thorough also 2^-30) for the eigen-based "
